@@ -154,7 +154,7 @@ def stepModel (s : DS) (ts : List String) (_ : String) : DS × Option String :=
     | _, _ => (s, some "bad-op")
   | ["results"] =>
     match s.fin with
-    | some th => (s, some (" ".intercalate ((List.range th.length).zip th |>.map fun (i, t) =>
+    | some th => (s, some (if th.isEmpty then "-" else " ".intercalate ((List.range th.length).zip th |>.map fun (i, t) =>
         s!"{i}:{showList (t.res.map tf)}")))
     | none => (s, some "bad-op")
   | ["log"] =>
@@ -273,6 +273,8 @@ structure OD where
 def verdict (x : Option String) : String := match x with | some w => "bad " ++ w | none => "ok"
 
 def stepOracle (s : OD) (ts : List String) (line : String) : OD × Option String :=
+  -- an op the implementation's interpreter rejected: the case is ill-formed (only arises while shrinking)
+  if resPart line = some "bad-op" then (s, some "bad-op") else
   match ts with
   | "cb.new" :: rest =>
     match parseCfg? rest with
@@ -294,7 +296,7 @@ def stepOracle (s : OD) (ts : List String) (line : String) : OD × Option String
   | ["results"] =>
     match s.os, resPart line with
     | some o, some r =>
-      let want := " ".intercalate ((List.range s.lastN).map fun i =>
+      let want := if s.lastN = 0 then "-" else " ".intercalate ((List.range s.lastN).map fun i =>
         s!"{i}:{showList ((o.ress.filter fun p => p.1 = i).map fun p => tf p.2)}")
       if r ≠ want then (s, some "bad results differ from the trace") else (s, some (verdict o.prBad))
     | _, _ => (s, some "bad-op")
